@@ -107,26 +107,15 @@ package argmapper
 //@   ensures  [frame] unchanged(a.named) && builderFrame(a)
 //@   assigns  NamedM, TypedSubM
 
-// everything about a builder except its converter lists
-//@ ghost builderRestKept(a *argBuilder) bool =
-//@     kept(argBuilder.logger, argBuilder.named, argBuilder.namedSub, argBuilder.typed, argBuilder.typedSub, argBuilder.redefining, argBuilder.filterInput, argBuilder.filterOutput, argBuilder.funcName, argBuilder.funcOnce)
-//@     && forall(x, *argBuilder, imp(old(allocated(x)) && x != a, x.convs == old(x.convs) && x.convGens == old(x.convGens)))
-
 //@ func ConverterFunc$1
 //@   requires a != nil
-//@   ensures  result == nil && builderRestKept(a) && a.convGens == old(a.convGens)
-//@   ensures  [appends-non-nil] len(a.convs) >= old(len(a.convs)) && forall(j, int, imp(0 <= j && j < old(len(a.convs)), a.convs[j] == old(a.convs[j]))) && forall(j, int, imp(0 <= j && j < len(a.convs), a.convs[j] != nil || (j < old(len(a.convs)))))
-//@   ensures  [frame] sliceskeptx([]*Func, a.convs) && (sref(a.convs) == sref(old(a.convs)) || fresh(a.convs))
+//@   ensures  result == nil && forall(x, *argBuilder, imp(x != a, x.convs == old(x.convs)))
 //@   assigns  argBuilder.convs, []*Func
-//@   loop 1 invariant a != nil && builderRestKept(a) && a.convGens == old(a.convGens) && sliceskeptx([]*Func, a.convs) && (sref(a.convs) == sref(old(a.convs)) || fresh(a.convs)) && soff(a.convs) == soff(old(a.convs)) || fresh(a.convs)
-//@   loop 1 invariant len(a.convs) >= old(len(a.convs)) && forall(j, int, imp(0 <= j && j < old(len(a.convs)), a.convs[j] == old(a.convs[j]))) && forall(j, int, imp(0 <= j && j < len(a.convs), a.convs[j] != nil || (j < old(len(a.convs)))))
 
 //@ func ConverterGen$1
 //@   requires a != nil
-//@   ensures  result == nil && builderRestKept(a) && a.convs == old(a.convs)
-//@   ensures  [frame] sliceskeptx([]ConverterGenFunc, a.convGens)
+//@   ensures  result == nil && forall(x, *argBuilder, imp(x != a, x.convGens == old(x.convGens)))
 //@   assigns  argBuilder.convGens, []ConverterGenFunc
-//@   loop 1 invariant a != nil && builderRestKept(a) && a.convs == old(a.convs) && sliceskeptx([]ConverterGenFunc, a.convGens)
 
 //@ func FilterInput$1
 //@   requires a != nil
@@ -342,7 +331,7 @@ package argmapper
 // ---------------------------------------------------------------- func.go: NewFunc (C14)
 //@ ghost hasFinalErr(ft reflect.Type) bool = numOut(ft) >= 1 && outType(ft, numOut(ft) - 1) == errType
 //@ ghost nOutVals(ft reflect.Type) int = numOut(ft) - ite(hasFinalErr(ft), 1, 0)
-//@ ghost funcFrame() bool = vsKept() && kept(Func, argBuilder, NamedM, NamedSubM, TypedM, TypedSubM, []*Func, []ConverterGenFunc, []reflect.StructField) 
+//@ ghost funcFrame() bool = vsKept() && kept(Func, argBuilder, NamedM, NamedSubM, TypedM, TypedSubM)
 
 //@ func NewFunc
 //@   ensures  [nil-or-non-func-rejected] imp(f == nil || kindof(dyntype(f)) != 19, result1 != nil)
@@ -357,3 +346,39 @@ package argmapper
 //@   ensures  [outputs-lifted] imp(result1 == nil && nOutVals(dyntype(f)) >= 1 && forall(i, int, imp(0 <= i && i < nOutVals(dyntype(f)), !isMarkerStruct(outType(dyntype(f), i)))), liftedVS(result0.output, methodval("reflect.(Type).Out", dyntype(f)), nOutVals(dyntype(f))))
 //@   ensures  [frame] funcFrame()
 //@   assigns  Func, argBuilder, NamedM, NamedSubM, TypedM, TypedSubM, []*Func, []ConverterGenFunc, ValueSet, Value, valueInternal, []*Value, map[string]*Value, map[reflect.Type]*Value, map[string]string, []string, []interface{}, reflect.StructField, []reflect.StructField, vpos, rvstore, rvfresh
+
+// Converter(fs...): every element must be a function (NewFunc); the new Funcs are appended
+//@ func Converter$1
+//@   requires a != nil
+//@   ensures  [non-function-is-an-error] imp(exists(j, int, 0 <= j && j < len(fs) && (fs[j] == nil || kindof(dyntype(fs[j])) != 19)), result != nil)
+//@   ensures  [frame] funcFrame2(a)
+//@   assigns  Func, argBuilder, NamedM, NamedSubM, TypedM, TypedSubM, []*Func, []ConverterGenFunc, ValueSet, Value, valueInternal, []*Value, map[string]*Value, map[reflect.Type]*Value, map[string]string, []string, []interface{}, reflect.StructField, []reflect.StructField, vpos, rvstore, rvfresh
+//@   loop 1 invariant a != nil && funcFrame2(a)
+//@   loop 1 invariant forall(j, int, imp(0 <= j && j < idx1, fs[j] != nil && kindof(dyntype(fs[j])) == 19))
+// like funcFrame, but the converter list of builder a itself may change
+//@ ghost funcFrame2(a *argBuilder) bool = vsKept() && kept(Func, NamedM, NamedSubM, TypedM, TypedSubM, argBuilder.logger, argBuilder.named, argBuilder.namedSub, argBuilder.typed, argBuilder.typedSub, argBuilder.convGens, argBuilder.redefining, argBuilder.filterInput, argBuilder.filterOutput, argBuilder.funcName, argBuilder.funcOnce) && forall(x, *argBuilder, imp(old(allocated(x)) && x != a, x.convs == old(x.convs)))
+
+// what an option does to the named-value tables (a function of the closure only)
+//@ ghost setsNamed(o Arg, k string) bool = fncode(o) == litcode("argmapper.Named$1") && lower(captured(o, "argmapper.Named$1", "n")) == k && captured(o, "argmapper.Named$1", "v") != nil
+//@ ghost namedVal(o Arg) reflect.Value = rvof(captured(o, "argmapper.Named$1", "v"))
+//@ ghost setsNamedSub(o Arg, k string, s string) bool = fncode(o) == litcode("argmapper.NamedSubtype$1") && lower(captured(o, "argmapper.NamedSubtype$1", "n")) == k && captured(o, "argmapper.NamedSubtype$1", "st") == s && captured(o, "argmapper.NamedSubtype$1", "v") != nil
+//@ ghost namedSubVal(o Arg) reflect.Value = rvof(captured(o, "argmapper.NamedSubtype$1", "v"))
+
+//@ func newArgBuilder
+//@   ensures  [nil-option-is-an-error] imp(exists(i, int, 0 <= i && i < len(opts) && opts[i] == nil), result0 == nil && result1 != nil)
+//@   ensures  [builder] imp(forall(i, int, imp(0 <= i && i < len(opts), opts[i] != nil)), wfB(result0) && fresh(result0) && fresh(result0.named) && fresh(result0.namedSub) && fresh(result0.typed) && fresh(result0.typedSub) && !result0.redefining)
+//@   ensures  [last-named-wins] imp(result0 != nil, forall(i, int, k, string, imp(0 <= i && i < len(opts) && setsNamed(opts[i], k) && forall(j, int, imp(i < j && j < len(opts), !setsNamed(opts[j], k))), has(result0.named, k) && result0.named[k] == namedVal(opts[i]))))
+//@   ensures  [only-supplied-names] imp(result0 != nil, forall(k, string, imp(forall(i, int, imp(0 <= i && i < len(opts), !setsNamed(opts[i], k))), !has(result0.named, k))))
+//@   ensures  [last-named-subtype-wins] imp(result0 != nil, forall(i, int, k, string, s, string, imp(0 <= i && i < len(opts) && setsNamedSub(opts[i], k, s) && forall(j, int, imp(i < j && j < len(opts), !setsNamedSub(opts[j], k, s))), has(result0.namedSub[k], s) && result0.namedSub[k][s] == namedSubVal(opts[i]))))
+//@   ensures  [only-supplied-subtypes] imp(result0 != nil, forall(k, string, s, string, imp(forall(i, int, imp(0 <= i && i < len(opts), !setsNamedSub(opts[i], k, s))), !has(result0.namedSub[k], s))))
+//@   ensures  [once-flag] imp(result0 != nil, forall(i, int, imp(0 <= i && i < len(opts) && fncode(opts[i]) == litcode("argmapper.FuncOnce$1"), result0.funcOnce)) && imp(forall(i, int, imp(0 <= i && i < len(opts), fncode(opts[i]) != litcode("argmapper.FuncOnce$1"))), !result0.funcOnce))
+//@   ensures  [frame] funcFrame()
+//@   assigns  Func, argBuilder, NamedM, NamedSubM, TypedM, TypedSubM, []*Func, []ConverterGenFunc, ValueSet, Value, valueInternal, []*Value, map[string]*Value, map[reflect.Type]*Value, map[string]string, []string, []interface{}, reflect.StructField, []reflect.StructField, vpos, rvstore, rvfresh
+//@   loop 1 invariant funcFrame() && wfB(builder) && fresh(builder) && fresh(builder.named) && fresh(builder.namedSub) && fresh(builder.typed) && fresh(builder.typedSub) && !builder.redefining
+//@   loop 1 invariant forall(k, string, imp(has(builder.namedSub, k), fresh(builder.namedSub[k]))) && forall(t, reflect.Type, imp(has(builder.typedSub, t), fresh(builder.typedSub[t])))
+//@   loop 1 invariant forall(i, int, imp(0 <= i && i < idx1, opts[i] != nil))
+//@   loop 1 invariant forall(i, int, k, string, imp(0 <= i && i < idx1 && setsNamed(opts[i], k) && forall(j, int, imp(i < j && j < idx1, !setsNamed(opts[j], k))), has(builder.named, k) && builder.named[k] == namedVal(opts[i])))
+//@   loop 1 invariant forall(k, string, imp(forall(i, int, imp(0 <= i && i < idx1, !setsNamed(opts[i], k))), !has(builder.named, k)))
+//@   loop 1 invariant forall(i, int, k, string, s, string, imp(0 <= i && i < idx1 && setsNamedSub(opts[i], k, s) && forall(j, int, imp(i < j && j < idx1, !setsNamedSub(opts[j], k, s))), has(builder.namedSub[k], s) && builder.namedSub[k][s] == namedSubVal(opts[i])))
+//@   loop 1 invariant forall(k, string, s, string, imp(forall(i, int, imp(0 <= i && i < idx1, !setsNamedSub(opts[i], k, s))), !has(builder.namedSub[k], s)))
+//@   loop 1 invariant forall(i, int, imp(0 <= i && i < idx1 && fncode(opts[i]) == litcode("argmapper.FuncOnce$1"), builder.funcOnce)) && imp(forall(i, int, imp(0 <= i && i < idx1, fncode(opts[i]) != litcode("argmapper.FuncOnce$1"))), !builder.funcOnce)
